@@ -748,37 +748,43 @@ func (c *Conn) writev(in [][]byte) (int, error) {
 	}
 
 	nwrite, err := writev(c, in)
-	if nwrite > 0 {
-		n := nwrite
-		onWrittenSize := c.p.g.onWrittenSize
-		if n < size {
-			for i := 0; i < len(in) && n > 0; i++ {
-				b := in[i]
-				if n == 0 {
-					c.newToWriteBuf(b)
-					// c.appendWrite(t)
-				} else {
-					if n < len(b) {
-						if onWrittenSize != nil {
-							onWrittenSize(c, b[:n], n)
-						}
-						c.newToWriteBuf(b[n:])
-						// c.appendWrite(t)
-						n = 0
-					} else {
-						if onWrittenSize != nil {
-							onWrittenSize(c, b, len(b))
-						}
-						n -= len(b)
-					}
-				}
-			}
-		}
-	} else {
+	if nwrite < 0 {
 		nwrite = 0
 	}
+	if err != nil &&
+		!errors.Is(err, syscall.EINTR) &&
+		!errors.Is(err, syscall.EAGAIN) {
+		return nwrite, err
+	}
+	if nwrite < size {
+		// cache all the data left to be written.
+		n := nwrite
+		onWrittenSize := c.p.g.onWrittenSize
+		for i := 0; i < len(in); i++ {
+			b := in[i]
+			if len(b) == 0 {
+				continue
+			}
+			if n == 0 {
+				c.newToWriteBuf(b)
+				// c.appendWrite(t)
+			} else if n < len(b) {
+				if onWrittenSize != nil {
+					onWrittenSize(c, b[:n], n)
+				}
+				c.newToWriteBuf(b[n:])
+				// c.appendWrite(t)
+				n = 0
+			} else {
+				if onWrittenSize != nil {
+					onWrittenSize(c, b, len(b))
+				}
+				n -= len(b)
+			}
+		}
+	}
 
-	return nwrite, err
+	return size, nil
 }
 
 // func (c *Conn) appendWrite(t *toWrite) {
